@@ -25,6 +25,7 @@ type Engine struct {
 	itabMu    sync.Mutex
 	pure      map[*ssa.Function]bool
 	rowTabs   map[*ssa.Global]*Lit
+	cbytes    map[*ssa.Global][]byte
 	mapLits   map[*ssa.Global]*Lit
 	failExits map[*ssa.Function][]failExit
 	writes    map[*ssa.Function]bool
@@ -1405,6 +1406,13 @@ func (e *Engine) load(st *State, x *ssa.UnOp) AbsVal {
 	}
 	// a package-level table of rows: tab := *table
 	if g, ok := x.X.(*ssa.Global); ok {
+		if bs, ok := e.constBytes(g); ok {
+			arr := &absArr{elems: make([]AbsVal, len(bs))}
+			for i, b := range bs {
+				arr.elems[i] = AbsVal{k: vByte, set: bsOf(b)}
+			}
+			return AbsVal{k: vArr, arr: arr, alo: 0, ahi: len(bs)}
+		}
 		if l := e.rowTable(g); l != nil {
 			return AbsVal{k: vLit, lit: l, field: -1}
 		}
